@@ -4,7 +4,7 @@ import z3
 
 from pyvc import core
 from pyvc.arrays import SArr
-from pyvc.core import And, Not, Or, SBool, SInt, SObj, ctx, implies, ite
+from pyvc.core import And, Not, Or, RaiseSig, SBool, SInt, SObj, ctx, implies, ite
 from pyvc.verify import Contract, Lemma, register
 
 from .c01_volume import SymTransformer
@@ -28,7 +28,8 @@ class ConvertChunksForScale(Contract):
         ncs, src_dt, dst_dt = cfg
         self.cfg = cfg
         self.src_info = mk_info(c, n_chunk_sizes=ncs, data_type=src_dt, nscales=2)
-        self.dst_info = dict(self.src_info, data_type=dst_dt)
+        # the destination lists the same scales in another order: scales are identified by key, not by position
+        self.dst_info = dict(self.src_info, data_type=dst_dt, scales=list(reversed(self.src_info["scales"])))
         self.reader = mk_io(c, self.src_info)
         self.writer = mk_io(c, self.dst_info)
         self.tr = SymTransformer(c, src_dt, dst_dt)
@@ -76,7 +77,9 @@ def native_convert_check(model, cfg):
                             "voxel_offset": [0, 0, 0], "encoding": "raw", "resolution": [1, 1, 1]} for s in range(2)]}
     io0, _ = native_io({})
     src = precomputed_io.PrecomputedIO(info(src_dt), type(io0.accessor)())
-    dst = precomputed_io.PrecomputedIO(info(dst_dt), type(io0.accessor)())
+    dinfo = info(dst_dt)
+    dinfo["scales"].reverse()                  # same scales, other order: the scale is identified by its key
+    dst = precomputed_io.PrecomputedIO(dinfo, type(io0.accessor)())
     si = src.info["scales"][1]
     rng = np.random.default_rng(2)
     nch = src.info["num_channels"]
@@ -91,7 +94,7 @@ def native_convert_check(model, cfg):
             src.write_chunk(vol[:, cc[4]:cc[5], cc[2]:cc[3], cc[0]:cc[1]], "k1", cc)
     from neuroglancer_scripts.data_types import get_chunk_dtype_transformer
     try:
-        convert_chunks.convert_chunks_for_scale(src, dst.info, dst, 1, get_chunk_dtype_transformer(src_dt, dst_dt, warn=False))
+        convert_chunks.convert_chunks_for_scale(src, dst.info, dst, 0, get_chunk_dtype_transformer(src_dt, dst_dt, warn=False))
         for cs in si["chunk_sizes"]:
             for cc in cells(cs):
                 got = dst.read_chunk("k1", cc)
@@ -130,7 +133,7 @@ class ConvertChunksDriver(Contract):
     target = CC + "convert_chunks"
     props = ("C13",)
     use_at_call_sites = False
-    configs = tuple((n, copy) for n in (1, 3) for copy in (False, True))
+    configs = tuple((n, copy) for n in (1, 3) for copy in (False, True)) + ((3, "fault"),)
 
     def local_contracts_for(self, cfg):
         u = self
@@ -142,7 +145,12 @@ class ConvertChunksDriver(Contract):
                          lambda a, k: types.SimpleNamespace(info=a[0], accessor=a[1], opts=k.get("encoder_options"), new=True))
         tr = _mk_logged("neuroglancer_scripts.data_types.get_chunk_dtype_transformer", "get_chunk_dtype_transformer[call-site]",
                         lambda a, k: ("<transformer>", a[0], a[1]))
-        one = _mk_logged(CC + "convert_chunks_for_scale", "convert_chunks_for_scale[call-site]", lambda a, k: None)
+        def per_scale(a, k):
+            from neuroglancer_scripts.accessor import DataAccessError
+            if cfg[1] == "fault" and a[3] == 1:
+                raise RaiseSig(DataAccessError("a chunk of this scale could not be read / written"))
+            return None
+        one = _mk_logged(CC + "convert_chunks_for_scale", "convert_chunks_for_scale[call-site]", per_scale)
         return {k_.target: k_() for k_ in (acc, ex, new, tr, one)}
 
     def io_for(self, accessor, kw):
@@ -155,10 +163,15 @@ class ConvertChunksDriver(Contract):
         mk = lambda dt: {"type": "image", "data_type": dt, "num_channels": 1, "scales": [{"key": f"s{i}"} for i in range(n)]}
         self.src_info, self.dst_info = mk("uint16"), mk("uint32")
         self.opts = {"gzip": True}
-        return ("src", "dst"), {"copy_info": copy, "options": self.opts}
+        return ("src", "dst"), {"copy_info": copy is True, "options": self.opts}
 
     def bind(self, fn, args, kwargs):
         return {}
+
+    def raises_when(self, c):
+        from neuroglancer_scripts.accessor import DataAccessError
+        # a scale that fails with a data-access error must not be swallowed: the conversion fails too
+        return [(DataAccessError, self.cfg[1] == "fault")]
 
     def ensures(self, c, result):
         n, copy = self.cfg
